@@ -35,7 +35,13 @@ class Link(object):
             a, b = socket.socketpair()
             env.sockets[id(b)] = b
             fd = env.own(a.detach())
-            sp = fdpexpect.fdspawn(fd, use_poll=(name == 'fd-poll'), **kw)
+            if name == 'fd-fileobj':
+                # a file object instead of a number; the object does not own the descriptor (closefd=False)
+                import io
+                self.fobj = io.open(fd, 'rb', buffering=0, closefd=False)
+                sp = fdpexpect.fdspawn(self.fobj, **kw)
+            else:
+                sp = fdpexpect.fdspawn(fd, use_poll=(name == 'fd-poll'), **kw)
             self.peer = b
             self.wfd = None
         elif name == 'popen':
